@@ -506,3 +506,30 @@ func ruleRetryHelper(w *core.World, r *core.Report, name string) {
 	})
 	r.Check(bad == "" && n > 0, shortName(name)+"/propagates-last-failure", badPos, "%s", bad)
 }
+
+// Path enumeration steps into a callee only when the rule base does not know
+// it: a named function that did not exist on the tree the rules were written
+// against (pinned_gen.go), or a small closure that is called directly and
+// that no rule treats as an event of its own (core.Atomic). Such a function is
+// what a refactoring produces when it extracts a few statements; analysing it
+// as part of its caller keeps the path rules independent of how the code is
+// cut into functions. Everything the rules name keeps being one event.
+func init() {
+	core.InlinePolicy = func(call *ssa.Call, callee *ssa.Function) bool {
+		root := callee
+		for root.Parent() != nil {
+			root = root.Parent()
+		}
+		if root.Pkg == nil || !strings.HasPrefix(root.Pkg.Pkg.Path(), core.ModulePath) {
+			return false
+		}
+		if callee.Parent() != nil {
+			return len(callee.Blocks) <= 24
+		}
+		name := core.FuncName(callee)
+		if o := callee.Origin(); o != nil {
+			name = core.FuncName(o)
+		}
+		return !pinnedFunctions[name] && !core.MatchName(name, knownFunctions...) && len(callee.Blocks) <= 60
+	}
+}
